@@ -18,7 +18,10 @@ def run(ctx):
         for ks in t.KBPK_SIZES[v]:
             for _ in range(ctx.n(6, 40)):
                 c = t.gen_case(rng, version=v, profile=rng.choice(["none", "few", "few", "boundary"]))
-                c["kbpk"] = rng.randbytes(ks)
+                from harness import gens
+                c["kbpk"] = gens.key(rng, ks)
+                if ks == 24 and rng.random() < 0.4:
+                    c["kbpk"] = c["kbpk"][:16] + c["kbpk"][:8]      # K1 K2 K1
                 cases.append(c)
     evals = 0
     fwd = []
